@@ -497,6 +497,21 @@ func r09c(c *core.Ctx) {
 		for _, call := range core.CallsNamed(uh, core.M("app/router.mustHaveRespB")) {
 			a := call.Common().Args
 			sz := a[4]
+			qName := "m"
+			if len(uh.Params) > 1 {
+				qName = core.Expr(uh.Params[1])
+			}
+			// the limit may be computed by a helper of the package from the query: analyse the helper's result
+			if hc, isCall := sz.(*ssa.Call); isCall {
+				if h := core.StaticCallee(hc); h != nil && h.Pkg == uh.Pkg && h.Blocks != nil && len(returnsOf(h)) == 1 {
+					for k, arg := range hc.Call.Args {
+						if len(uh.Params) > 1 && arg == ssa.Value(uh.Params[1]) && k < len(h.Params) {
+							sz = core.ReturnResults(returnsOf(h)[0])[0]
+							qName = core.Expr(h.Params[k])
+						}
+					}
+				}
+			}
 			// phi(512 | int(hdr.Class)) with the floor guard
 			ok := false
 			fromQuery := false
@@ -518,7 +533,7 @@ func r09c(c *core.Ctx) {
 							}
 							if u, isU := o.(*ssa.UnOp); isU && core.IsFieldAddr(u.X, "ResourceHdr", "Class") {
 								hexpr := core.Expr(u.X)
-								if strings.Contains(hexpr, "m.Additionals[") && hasCond(u.Block(), ".Type == 41)", true) {
+								if strings.Contains(hexpr, qName+".Additionals[") && hasCond(u.Block(), ".Type == 41)", true) {
 									fromQuery = true
 								} else {
 									desc += " (class read from " + hexpr + ")"
@@ -552,7 +567,7 @@ func r09c(c *core.Ctx) {
 						if u, isU := o.(*ssa.UnOp); isU && core.IsFieldAddr(u.X, "ResourceHdr", "Class") {
 							// hdr = r.Hdr() with r ranging over m.Additionals (m the query parameter)
 							hexpr := core.Expr(u.X)
-							if strings.Contains(hexpr, "m.Additionals[") && hasCond(u.Block(), ".Type == 41)", true) {
+							if strings.Contains(hexpr, qName+".Additionals[") && hasCond(u.Block(), ".Type == 41)", true) {
 								fromQuery = true
 							} else {
 								desc += " (class read from " + hexpr + ")"
